@@ -246,6 +246,25 @@ def check(run):
                                   "a path from the %s call in %s returns (at line %s) without calling abort()" % (kind, f.dname[:160], bad.line), call.where())
             # unwind: functions on the call path + handlers
             an = eff.Analyzer(mod)
+            # the error path leaves no trace: "later calls still dispatch correctly" after a handler that throws - the method's
+            # handlers and the policies' own default handlers write no shared state (the exception may leave at any call)
+            r6 = "C02-stateless"
+            if r6 not in run.rules:
+                run.rule(r6, "the error path (resolution handlers, the policies' default error handlers) writes no shared state: a throwing handler leaves everything as it was", floor=len(pols) * 2)
+            ents = [(k, f) for k, f in callpath.entries(mod) if k == "handler"]
+            ents += [("default handler", f) for f in mod.funcs.values() if f.body and re.search(
+                r"policy::(backward_compatible_error_handler<.*>::default_error_handler|vectored_error<.*>::default_error_handler|throw_error::error|backward_compatible_error_handler<.*>::default_call_error_handler)\(", f.dname)]
+            for kind, f in ents:
+                e = an.run(f, own_eargs=callpath.own_args(f, irq.param_list(irq.strip_ret(f.dname))))
+                wr = [w for w in e.writes if any(a[0] in ("global",) for a in w["prov"]) or any(a[0] == "loaded" and any(b[0] == "global" for b in a[1:]) for a in w["prov"])]
+                # writing to the error stream is output, not state
+                wr = [w for w in wr if not all(re.search(r"std::(cerr|cout|clog)|detail::cerr|::error_stream|::trace_stream", mod.gd(a[1])) for a in w["prov"] if a[0] == "global")]
+                run.instance(r6, "%s %s" % (kind, re.sub(r"w_\w+_\d+::key", "K", f.dname)), f.where(), ok=not wr)
+                for w in wr:
+                    tgt = ", ".join(eff.fmt_prov(mod, w["prov"]))
+                    fq = re.sub(r"<.*", "", irq.strip_ret(w["fn"]))
+                    run.violation(r6, "%s|%s" % (fq[:120], w["kind"]), "the error path writes shared state: %s -> %s (in %s): after a handler that throws, the next error (or call) does not see the state the program set up" % (
+                        w["kind"], tgt[:160], w["fn"][:140]), w["where"])
             for kind, ent in callpath.entries(mod):
                 if kind != "wrapper" or not re.match(r"^w_\w+::call\(", ent.dname):
                     continue
@@ -298,6 +317,18 @@ def check(run):
         crules.merge_rules(run, "C02-model", None, ast)
         crules.model_rules(run, "C02-model", ast, parts=("pf", "iter", "vp"))
         crules.phase_rules(run, "C02-model", ast)
+    # pre-generated tables: the decoder rebuilds each method's cells; its error cells must be the ones update numbers
+    from . import c13
+    from .. import astq, witness as _w
+    pols13 = ["release", "debug"]
+    src13, _ = _w.call_matrix(pols13, ["rr"], _w.update_block(pols13))
+    ast13 = astq.Ast(common.ast_json(run, src13, "c13_ast_nd", ndebug=True, funcs=c13.FUNCS))
+    decs = [f for f in ast13.funcs if f.get("body") and "decode_dispatch_data<" in f["name"]]
+    augs = [f for f in ast13.funcs if f.get("body") and f["name"].endswith("::augment_methods")]
+    if not decs or not augs:
+        run.broken.append("decode_dispatch_data / augment_methods not instantiated for the error-cell order rule")
+    for f in decs:
+        c13.error_cell_order(run, r5, f, augs[0])
     must = ["yorel::yomm2::method<>::not_implemented_handler", "yorel::yomm2::method<>::ambiguous_handler",
             "checked_perfect_hash<>::hash_type_id", "fast_perfect_hash<>::hash_initialize", "compiler<>::augment_classes",
             "compiler<>::augment_methods", "virtual_ptr<>::final", "backward_compatible_error_handler<>::default_error_handler"]
